@@ -348,7 +348,13 @@ theorem C13_inflight_never_dropped {g b a : Bool} {s s' : State} {l : Label} {c 
   · rw [callView_complete_plan (hk'.calls_ok k' hkm)
       (hk'.closed_calls hcl h4 k' hkm (h5 hst) h3) he, h6]
 
-/-- THE REQUEST TIMEOUT FIRES ONLY BEFORE THE RESPONSE HEAD (tonic's own logic: `GrpcTimeout` wraps
+/-- Transcription lemma (definitional): this is the guard of `step _ (.expire c j)` unfolded — the
+"exact enabling condition" is the one written into the model, so the theorem restates a definition
+and carries no assurance of its own (twin of `C13_resolve_enabled_iff`).  What rests on it are the
+trace-level theorems of this section (`C13_timeout_never_cuts_a_streaming_body`, …); that the real
+`GrpcTimeout` stops at the response head is established by the correspondence run (scripts with the
+`t<secs>` option = `Server::timeout`: streaming bodies that outlive the timeout, calls cut before their head).
+THE REQUEST TIMEOUT FIRES ONLY BEFORE THE RESPONSE HEAD (tonic's own logic: `GrpcTimeout` wraps
 the handler's response future, not the response body).  The exact enabling condition of `expire`:
 a timeout is configured, the call's handler was invoked and its sleep has elapsed, the handler has
 not returned its response yet, the caller is still there, the call was not cut before.  In
@@ -848,13 +854,20 @@ example : ∃ H : Hyper, HyperGracefulContract H ∧ H.handshake ≠ hyperModel.
 
 -- ------------------------------------------------------------------ sibling servers (one builder, two servers)
 
-/-- SIBLING SERVERS SHARE NOTHING.  Two servers made by `add_service` on one `Server` builder value
-(`add_service` clones the builder; the watch channel, the `Fuse`s and the connection tasks are
-created per `serve_internal` call) run as the product of two copies of the transition system: along
-ANY interleaving of their steps, each server's own steps - in order - are a run of that server
-alone, ending in its component of the final state.  So everything proved of `Reachable` states and
-of `run` holds of each of the two, whatever the other one does: its signal, its connections, its
-calls, its resolution. -/
+/-- Transcription lemma (definitional): `Pair` / `stepPair` (Model/ShutdownPair.lean) ARE the product of
+two copies of `step`, so this is the projection property of a product and holds for EVERY transition
+function — nothing of `serve_internal` is used.  "Sibling servers share nothing" is the modelling
+DECISION (read off the code: `add_service` clones the builder; the watch channel, the `Fuse`s and the
+connection tasks are created per `serve_internal` call), not something this theorem establishes; the
+assurance is the correspondence run (the `z` cases: a sibling server from the same builder, its signal
+never fired, must stay unaffected while the script shuts the other down; clause `sibling-unaffected`) and the kernel-checked contrast with a builder that carries the watch channel
+(`C13_sibling_resolve_fails_with_shared_channel`, `C13_sibling_independence_fails_with_shared_channel`).
+SIBLING SERVERS, AS MODELLED.  Two servers made by `add_service` on one `Server` builder value run as
+the product of two copies of the transition system: along ANY interleaving of their steps, each
+server's own steps - in order - are a run of that server alone, ending in its component of the final
+state.  So everything proved of `Reachable` states and of `run` holds of each of the two, whatever the
+other one does: its signal, its connections, its calls, its resolution.  (Only this direction; the
+converse — any two lone runs interleave into a pair run — is `C13_sibling_servers_independent_iff`.) -/
 theorem C13_sibling_servers_independent (ls : List (Side × Label)) :
     ∀ (p p' : Pair), runPair p ls = some p' →
       run p.a (labelsOf .a ls) = some p'.a ∧ run p.b (labelsOf .b ls) = some p'.b := by
@@ -884,7 +897,9 @@ theorem C13_sibling_servers_independent (ls : List (Side × Label)) :
         have := ih _ _ h
         simpa [labelsOf, run, hs] using this
 
-/-- A server is untouched by whatever a sibling built from the same builder goes through (its
+/-- Transcription lemma (definitional): corollary of the product projection
+`C13_sibling_servers_independent` (true of every product of transition systems); tie: the `z` cases.
+A server is untouched by whatever a sibling built from the same builder goes through (its
 shutdown signal, its drain, its resolution): if only the sibling takes steps, this server's state
 is what it was. -/
 theorem C13_sibling_untouched (ls : List (Side × Label)) (p p' : Pair)
@@ -898,7 +913,10 @@ theorem C13_sibling_untouched (ls : List (Side × Label)) (p p' : Pair)
   rw [this] at hb
   simpa [run] using hb.symm
 
-/-- Both servers of a pair started from initial states stay within the reachable states of a lone
+/-- Transcription lemma (definitional): corollary of the product projection
+`C13_sibling_servers_independent`; it transfers the lone-server theorems to each component of the
+product and says nothing about whether the product is the right model (tie: the `z` cases).
+Both servers of a pair started from initial states stay within the reachable states of a lone
 server (so `C13_no_accept_after_signal`, `C13_resolve_only_when_all_closed`, … apply to each). -/
 theorem C13_sibling_servers_reachable (g g' b a a' t t' : Bool) (ls : List (Side × Label)) (p' : Pair)
     (h : runPair { a := init g b a t, b := init g' b a' t' } ls = some p') :
@@ -906,7 +924,11 @@ theorem C13_sibling_servers_reachable (g g' b a a' t t' : Bool) (ls : List (Side
   have := C13_sibling_servers_independent ls _ p' h
   exact ⟨reachable_run (.init t) this.1, reachable_run (.init t') this.2⟩
 
-/-- The serve future of one server waits for its OWN receivers only: `resolve` is enabled in the
+/-- Transcription lemma (definitional): the guard of `step _ .resolve` unfolded through `stepPair`
+(`simp only [stepPair, step]; split <;> simp_all`), twin of `C13_resolve_enabled_iff`; the content is
+the contrast with `stepPairShared` (next theorem) and the tie (`z` cases: the script's server resolves
+while its sibling still serves a streaming call).
+The serve future of one server waits for its OWN receivers only: `resolve` is enabled in the
 pair exactly when it is enabled for that server alone - whatever connections the sibling has. -/
 theorem C13_sibling_resolve_waits_for_own_connections_only (p : Pair) :
     (stepPair p .a .resolve).isSome
@@ -922,5 +944,70 @@ theorem C13_sibling_resolve_fails_with_shared_channel :
       ∧ (stepPair p .a .resolve).isSome = true ∧ (stepPairShared p .a .resolve).isSome = false := by
   refine ⟨{ a := ((run (init true true false) [.sigFire, .loopSig, .afterLoop]).getD (init true true false)),
             b := init true true false }, ?_, ?_, ?_, ?_, ?_⟩ <;> decide
+
+/-- Transcription lemma (definitional): the converse projection property of the product, again true of
+every transition function.  Any run of server `a` alone and any run of server `b` alone, interleaved
+in ANY way, are a run of the pair: neither server ever has to wait for, or is ever blocked by, the
+other.  (This is the half a shared watch channel breaks: `C13_sibling_independence_fails_with_shared_channel`.) -/
+theorem C13_sibling_lone_runs_interleave (ls : List (Side × Label)) :
+    ∀ (p : Pair) (sa sb : State),
+      run p.a (labelsOf .a ls) = some sa → run p.b (labelsOf .b ls) = some sb →
+      runPair p ls = some { a := sa, b := sb } := by
+  induction ls with
+  | nil =>
+    intro p sa sb ha hb
+    simp [labelsOf, run] at ha hb
+    subst ha; subst hb
+    simp [runPair]
+  | cons x ls ih =>
+    intro p sa sb ha hb
+    obtain ⟨sd, l⟩ := x
+    cases sd with
+    | a =>
+      have e1 : labelsOf .a ((Side.a, l) :: ls) = l :: labelsOf .a ls := by simp [labelsOf]
+      have e2 : labelsOf .b ((Side.a, l) :: ls) = labelsOf .b ls := by simp [labelsOf]
+      rw [e1] at ha; rw [e2] at hb
+      simp only [run] at ha
+      cases hs : step p.a l with
+      | none => simp [hs] at ha
+      | some s =>
+        simp only [hs] at ha
+        simp only [runPair, stepPair, hs, Option.map_some]
+        exact ih { p with a := s } sa sb ha hb
+    | b =>
+      have e1 : labelsOf .b ((Side.b, l) :: ls) = l :: labelsOf .b ls := by simp [labelsOf]
+      have e2 : labelsOf .a ((Side.b, l) :: ls) = labelsOf .a ls := by simp [labelsOf]
+      rw [e1] at hb; rw [e2] at ha
+      simp only [run] at hb
+      cases hs : step p.b l with
+      | none => simp [hs] at hb
+      | some s =>
+        simp only [hs] at hb
+        simp only [runPair, stepPair, hs, Option.map_some]
+        exact ih { p with b := s } sa sb ha hb
+
+/-- Transcription lemma (definitional): both directions together — a pair run IS a pair of lone runs of
+its two projections (the characterisation of a product; no property of `serve_internal` enters). -/
+theorem C13_sibling_servers_independent_iff (ls : List (Side × Label)) (p p' : Pair) :
+    runPair p ls = some p' ↔
+      run p.a (labelsOf .a ls) = some p'.a ∧ run p.b (labelsOf .b ls) = some p'.b :=
+  ⟨C13_sibling_servers_independent ls p p',
+   fun h => C13_sibling_lone_runs_interleave ls p p'.a p'.b h.1 h.2⟩
+
+/-- … and the interleaving half is FALSE of a builder that carries the watch channel (counter-model
+`stepPairShared`, run over whole interleavings by `runPairBy`): server `a` alone can resolve (signal
+fired, accept loop left, no connection), server `b` alone can stay as it is, but the pair cannot
+take `a`'s `resolve` step — `a` is blocked by a sibling that is merely running.  So the two
+projection lemmas above do tell the product from this sharing. -/
+theorem C13_sibling_independence_fails_with_shared_channel :
+    ¬ ∀ (ls : List (Side × Label)) (p : Pair),
+      (run p.a (labelsOf .a ls)).isSome = true → (run p.b (labelsOf .b ls)).isSome = true →
+      (runPairBy stepPairShared p ls).isSome = true := by
+  intro h
+  have := h [(.a, .resolve)]
+    { a := ((run (init true true false) [.sigFire, .loopSig, .afterLoop]).getD (init true true false)),
+      b := init true true false } (by decide) (by decide)
+  revert this
+  decide
 
 end C13
